@@ -475,6 +475,10 @@ func ParseAggregate(expr sqlparser.Expr) (string, logical.Expression, error) {
 			return "", nil, errors.Wrapf(ErrNotAggregate, "aggregate not found: %v", expr.Name)
 		}
 
+		if len(expr.Exprs) != 1 {
+			return "", nil, errors.Errorf("aggregate %v takes exactly one argument, got %d", expr.Name, len(expr.Exprs))
+		}
+
 		var parsedArg logical.Expression
 		switch arg := expr.Exprs[0].(type) {
 		case *sqlparser.AliasedExpr:
